@@ -2,8 +2,11 @@ package props
 
 import (
 	"fmt"
+	z "github.com/Oudwins/zog"
+	"github.com/Oudwins/zog/zhttp"
 	"math"
 	"math/big"
+	"net/http"
 	"reflect"
 	"strconv"
 	"strings"
@@ -115,7 +118,9 @@ func buildC18Grid() []any {
 	}
 	for _, s := range []string{"010", "0100", "-012", "014", "0777", "08", "0_1", "0o17", "0b101", "0x1F", "1_000", "+0x10",
 		"1e19", "3e9", "1e300", "-1e300", "1e400", "-1e400", "1e-400", "3.4028235e38", "3.4028236e38", "3.5e38", "1e39", "9.223372036854775807e18", "9223372036854775807.5",
-		"9223372036854775808.0", "2147483647.9", "2147483648.0", "-2147483648.5", "-2147483649", "00012", "-0", "+0", "0.0", "-0.0", "1.", ".5", "1e0", "1E2", "12e-1", "  12", "12 ", "1,5", "1_000", "0x10", "0b11", "١٢"} {
+		"9223372036854775808.0", "2147483647.9", "2147483648.0", "-2147483648.5", "-2147483649", "00012", "-0", "+0", "0.0", "-0.0", "1.", ".5", "1e0", "1E2", "12e-1", "  12", "12 ", "1,5", "1_000", "0x10", "0b11", "١٢",
+		// exponent notation: whatever the coercer makes of it, not a wrapped number
+		"-9.3e18", "-10e18", "-1844674407370955161e1", "9.3e18", "10e18", "2.5e3", "1e+16", "-1e+19", "92233720368547758070e-1", "-92233720368547758090e-1"} {
 		add(s)
 	}
 	add(true)
@@ -485,7 +490,76 @@ func randomNumber(r *rng.Rand) any {
 	}
 }
 
+// c18BigInputs: arbitrary-precision integers (what NUMERIC columns and exact decoders hand out) into the integer schemas: the same
+// number or a coerce issue - never its low 64 bits.
+func c18BigInputs(c *core.Ctx) bool {
+	mk := func(s string) *big.Int { b, _ := new(big.Int).SetString(s, 10); return b }
+	for _, b := range []*big.Int{mk("9223372036854775808"), mk("18446744073709551615"), mk("-9223372036854775815"), mk("18446744073709551616"), mk("5"), mk("-2147483649"), mk("4294967301"), nil} {
+		for _, kind := range []string{"Int", "Int64", "Int32"} {
+			var got int64
+			var l z.ZogIssueList
+			func() {
+				defer func() {
+					if r := recover(); r != nil {
+						l = z.ZogIssueList{&z.ZogIssue{Code: "PANIC"}}
+					}
+				}()
+				switch kind {
+				case "Int":
+					var d int
+					l = z.Int().Parse(b, &d)
+					got = int64(d)
+				case "Int64":
+					var d int64
+					l = z.Int64().Parse(b, &d)
+					got = d
+				default:
+					var d int32
+					l = z.Int32().Parse(b, &d)
+					got = int64(d)
+				}
+			}()
+			c.Eval(1)
+			if len(l) == 0 && (b == nil || !b.IsInt64() || b.Int64() != got) {
+				c.Violation("number-silently-changed|big-integer-input", map[string]any{"schema": kind + "()", "input": fmt.Sprintf("*big.Int %v", b), "destination": got, "issues": 0})
+				return false
+			}
+			if len(l) == 1 && l[0].Code == "PANIC" {
+				c.Violation("panic|big-integer-input", map[string]any{"schema": kind + "()", "input": fmt.Sprintf("*big.Int %v", b)})
+				return false
+			}
+		}
+	}
+	// the text NaN (or null, undefined) in a form or a query string is text that is not a number - with or without a Default
+	type qn struct {
+		N int     `query:"n" form:"n"`
+		F float64 `query:"f" form:"f"`
+	}
+	for _, txt := range []string{"NaN", "null", "undefined", "nan", "Infinity"} {
+		for _, front := range []string{"query", "form"} {
+			var r *http.Request
+			if front == "query" {
+				r, _ = http.NewRequest("GET", "/x?n="+txt, nil)
+			} else {
+				r, _ = http.NewRequest("POST", "/x", strings.NewReader("n="+txt))
+				r.Header.Set("Content-Type", "application/x-www-form-urlencoded")
+			}
+			d := qn{N: -1}
+			m := z.Struct(z.Schema{"n": z.Int().Default(1).GTE(1), "f": z.Float64()}).Parse(zhttp.Request(r), &d)
+			c.Eval(1)
+			if len(m["n"]) != 1 || m["n"][0].Code != "coerce" || d.N != -1 {
+				c.Violation("number-silently-changed|text-that-is-not-a-number", map[string]any{"request": front + " n=" + txt, "schema": "{n: Int().Default(1).GTE(1)}", "destination": d.N, "issues": fmt.Sprint(z.Issues.SanitizeMap(m)), "want": "one coerce issue at n, destination untouched"})
+				return false
+			}
+		}
+	}
+	return true
+}
+
 func (c18) RunCase(c *core.Ctx) {
+	if c.Case == 11 && !c18BigInputs(c) {
+		return
+	}
 	if c.Case == 0 && !c18JSONLiterals(c) {
 		return
 	}
